@@ -461,6 +461,32 @@ def e2e(ctx, rng, gs, n_reps):
                           "a row of the multi-direction estimate differs from enumerating the pairs of that direction",
                           dict(entry="vario_estimate", est=est, tol=tol, bw=bw, style=style, arrays=describe(f, edges, pos, dirs),
                                expected_counts=bcnt.tolist(), got_counts=c.tolist()), key="vario_estimate:direction-set")
+    # documented rejections: a zero-length direction (alone or inside a set), direction together with lat-lon, both direction and
+    # angles missing dimension: the call must raise ValueError and must not return numbers
+    for rep in range(2 * n_reps):
+        dim = int(rng.integers(2, 4))
+        n = 8
+        pos = rng.normal(size=(dim, n)) * 2
+        f = rng.normal(size=n)
+        edges = gen_edges(rng, 3, first_zero=True)
+        nd = int(rng.integers(1, 4))
+        dirs = rng.normal(size=(nd, dim))
+        z = int(rng.integers(nd))
+        dirs[z] = [0.0, 1e-300, -0.0][int(rng.integers(3))]
+        bw = None if rng.random() < 0.5 else 1.0
+        ctx.count(("e2e-reject", dim, nd, z, bw is None), hist=dict(entry="vario_estimate-reject", nd=nd))
+        case = dict(entry="vario_estimate", directions=dirs.tolist(), bandwidth=bw, arrays=describe(f, edges, pos))
+        try:
+            with np.errstate(all="ignore"):
+                out = gs.vario_estimate(tuple(pos), f, edges, direction=dirs, bandwidth=bw, return_counts=True)
+        except ValueError:
+            continue
+        except Exception as e:
+            ctx.violation("probe: zero-length direction raised something else than ValueError", repr(e), case, key="vario_estimate:reject-zero-direction")
+            continue
+        ctx.violation("probe: a direction set with a zero-length member must be rejected (ValueError)",
+                      "vario_estimate accepted a zero-length direction and returned numbers for an empty search sector",
+                      dict(case, returned_counts=np.asarray(out[2]).tolist()), key="vario_estimate:reject-zero-direction")
     # lattice point sets (grids, transects): pairs EXACTLY perpendicular / parallel to an axis-aligned direction, tolerances at the
     # ends of the documented range (pi/2 exactly: a perpendicular pair is NOT inside the strict sector), exact bandwidth ties
     for rep in range(4 * n_reps):
